@@ -249,6 +249,10 @@ func frameExempt(k string) bool {
 // ("" when k is exempt or syntactically unchanged).
 func (f *Frame) frameGoal(k string, st *State) string {
 	e := f.e
+	if f.fc != nil && f.fc.AssumeFrame {
+		f.e.note("frame (modifies clause) of " + f.e.name + " is assumed, not checked")
+		return ""
+	}
 	if f.fc == nil || !(f.fc.HasMod || f.fc.Pure) || frameExempt(k) {
 		return ""
 	}
@@ -313,8 +317,9 @@ func (f *Frame) localAt(name string, b *ssa.BasicBlock, st *State) *Value {
 			continue
 		}
 		if db == b {
-			// defined in the head itself: only phis (handled above) are meaningful
-			if _, isPhi := d.X.(*ssa.Phi); !isPhi {
+			// defined in the head itself: only phis (handled above) are meaningful; at a call site in the middle of
+			// the block (site assertion) everything already evaluated in this block is in scope
+			if _, isPhi := d.X.(*ssa.Phi); !isPhi && !f.siteMode {
 				continue
 			}
 		}
